@@ -119,14 +119,17 @@ def h_thumbprint(ctx):
         return Outcome("import-failed", [viol(f"{kty} key cannot be built via {how}", f"{label}: {k.exc!r}")], nontrivial=(label, how, private))
     # the module-level RFC 7638 function is public API too: its caller names the required members, in whatever order it has them
     by = ctx.choose("computed_by", ["key.thumbprint()", "rfc7638.thumbprint(jwk, members as RFC 7638 3.2 lists them)", "rfc7638.thumbprint(jwk, members in the JWK's own order)",
-                                    "rfc7638.thumbprint(jwk, members in reverse lexicographic order)"] if how == "dict" and order == "given" and not extras else ["key.thumbprint()"])
+                                    "rfc7638.thumbprint(jwk, members in reverse lexicographic order)", "rfc7638.thumbprint(jwk, members from a generator)",
+                                    "rfc7638.thumbprint(jwk, members as a tuple)", "rfc7638.thumbprint(jwk, members as a dict view)"] if how == "dict" and order == "given" and not extras else ["key.thumbprint()"])
     if by == "key.thumbprint()":
         tp = call(k.value.thumbprint)
     else:
         from joserfc.rfc7638 import thumbprint as module_thumbprint
         req = {"oct": ["kty", "k"], "RSA": ["kty", "n", "e"], "EC": ["kty", "crv", "x", "y"], "OKP": ["kty", "crv", "x"]}[kty]
         fields = req if "3.2" in by else ([m for m in src if m in req] if "own order" in by else sorted(req, reverse=True))
-        tp = call(module_thumbprint, dict(src), list(fields), digest)
+        fields = list(fields)
+        given_as = (m for m in fields) if "generator" in by else (tuple(fields) if "tuple" in by else ({m: None for m in fields}.keys() if "dict view" in by else fields))
+        tp = call(module_thumbprint, dict(src), given_as, digest)
     vs = []
     cls = f"{kty}{'-' + jwk['crv'] if 'crv' in jwk else ''}"
     if not tp.ok:
@@ -384,7 +387,8 @@ def h_generated(ctx):
     from joserfc.jwk import JWKRegistry, KeySet
     kind = ctx.choose("kind", [("oct", 128), ("oct", 256), ("RSA", 1024), ("EC", "P-256"), ("EC", "P-384"), ("EC", "P-521"),
                                ("EC", "secp256k1"), ("OKP", "Ed25519"), ("OKP", "Ed448"), ("OKP", "X25519"), ("OKP", "X448")])
-    via = ctx.choose("via", ["generate_key", "generate_key_set", "generate_key_set_shared_params", "generate_key-with-own-kid", "class.generate_key-with-own-kid", "public-with-own-kid"])
+    via = ctx.choose("via", ["generate_key", "generate_key public-only", "class.generate_key", "class.generate_key public-only", "generate_key_set", "generate_key_set public-only",
+                             "generate_key_set_shared_params", "generate_key-with-own-kid", "class.generate_key-with-own-kid", "public-with-own-kid"])
     rep = ctx.choose("repeat", range(3 if not config.thorough() else 12))
     vs = []
     own = None
@@ -404,8 +408,17 @@ def h_generated(ctx):
             if k.kid != own or k.as_dict().get("kid") != own:
                 vs.append(viol(f"auto_kid overwrites the kid the caller gave to a generated {kind[0]} key", f"{kind} via {via}: kid {k.kid!r}, given {own!r}"))
         return Outcome("gen-ok" if not vs else "gen-bad", vs, nontrivial=(kind, via, rep))
-    if via == "generate_key":
-        keys = [JWKRegistry.generate_key(kind[0], kind[1], auto_kid=True)]
+    pub_only = via.endswith("public-only")
+    if pub_only and kind[0] == "oct":
+        return Outcome("n/a", [], nontrivial=None)
+    if via == "generate_key_set public-only":
+        keys = KeySet.generate_key_set(kind[0], kind[1], private=False, count=3).keys
+    elif via in ("generate_key", "generate_key public-only"):
+        keys = [JWKRegistry.generate_key(kind[0], kind[1], private=not pub_only, auto_kid=True)]
+    elif via in ("class.generate_key", "class.generate_key public-only"):
+        from joserfc.jwk import OctKey, RSAKey, ECKey, OKPKey
+        cls_ = {"oct": OctKey, "RSA": RSAKey, "EC": ECKey, "OKP": OKPKey}[kind[0]]
+        keys = [cls_.generate_key(kind[1], auto_kid=True) if kind[0] == "oct" else cls_.generate_key(kind[1], private=not pub_only, auto_kid=True)]
     elif via == "generate_key_set":
         keys = KeySet.generate_key_set(kind[0], kind[1], count=3).keys
     else:
